@@ -44,7 +44,11 @@ void L_TRY_READ_LOCK(L_TRY_READ_LOCK_a0 out, L_TRY_READ_LOCK_a1 l) {
   if (nondet_bool()) { *(void **)out = 0; *(uint64_t *)((uint8_t *)out + 8) = 0; return; }
   RLC(l)++; *(void **)out = l; *(uint64_t *)((uint8_t *)out + 8) = nondet_u64() & ~3ULL;
 }
-_Bool L_CHECK(L_CHECK_a0 l, L_CHECK_a1 ver) { (void)lk_idx(l); _Bool ok = nondet_bool(); if (!ok) RLC(l)--; return ok; }
+_Bool L_CHECK(L_CHECK_a0 l, L_CHECK_a1 ver) { (void)lk_idx(l);
+#ifdef VERIF_CFG_DEBUG
+  __CPROVER_assert(RLC(l) > 0, "UNODB_DETAIL_ASSERT(read_lock_count > 0) holds: check / unlock only inside an open read section");
+#endif
+  _Bool ok = nondet_bool(); if (!ok) RLC(l)--; return ok; }
 _Bool L_UPGRADE(L_UPGRADE_a0 l, L_UPGRADE_a1 ver) {
   int i = lk_idx(l); RLC(l)--;
   if (nondet_bool()) return 0;
